@@ -146,6 +146,16 @@ CHECKS = {
              "masters are computed by fontTools on runtime data and are NOT decided.",
         design_ref="DESIGN.md §5 C10", note=STATIC_NOTE,
         technique="static analysis: loop-shape and skip-condition rules over the per-source loops, guard facts, dominance/ordering, value-origin rules"),
+    "C11": dict(
+        text="Static structural clauses of the post-processor's renaming: reload dominates rename (tables frozen to indices first), "
+             "format 3 then reload when names are dropped; rename_glyphs maps every carrier element by element with one map (glyph "
+             "order, post 2.0 names, CFF charset and CharStrings keys), the extraNames computations agree; every stored name passes the "
+             "invalid-character filter and _unique_name, _unique_name records what it returns, names of glyphs that are not renamed "
+             "are reserved first (a genuine defect here was fixed in /repo f6ec7ac); decision structure from argument / three lib keys; "
+             "uni/u naming rule; the invalid-character pattern (regex AST) is exactly the complement of [0-9A-Za-z_.]. Byte identity "
+             "of the other tables is produced by fontTools' compile/reload and is NOT decided.",
+        design_ref="DESIGN.md §5 C11", note=STATIC_NOTE,
+        technique="static analysis: dominance rules, element-wise mapping shape rules, value-origin sanitiser rule, guard facts, regex-AST evaluation of the character class"),
 }
 
 _TODO = "check not built yet in this session (static rules designed in DESIGN.md §5; will be claimed when the rule set is armed)"
